@@ -13,12 +13,12 @@ Lemma mg_inv_sm p f b st : mg_inv p f b st <-> mg_sm p f b (st_store st) (st_mem
 Proof. unfold mg_sm, mg_inv. simpl. tauto. Qed.
 
 (* one message on the tx-local store *)
-Lemma cp_keeps p f b now s m x s' m' res :
-  mg_hyp p f -> mg_sm p f b s m -> create_price p now s m x = (s', m', res) ->
+Lemma cp_keeps p f H0 b now s m x s' m' res :
+  mg_hyp p f -> co_ok p f H0 b m -> mg_sm p f b s m -> create_price p now s m x = (s', m', res) ->
   (res = MsgCounted \/ res = MsgFinal -> mg_sm p f b s' m') /\
   (res <> MsgFinal -> s' = s /\ m_rounds m' = m_rounds m).
 Proof.
-  intros Hh Hinv Hc. split; [|intro Hne; exact (create_price_nonfinal _ _ _ _ _ _ _ _ Hc Hne)].
+  intros Hh Hco Hinv Hc. split; [|intro Hne; exact (create_price_nonfinal _ _ _ _ _ _ _ _ Hc Hne)].
   intros [E|E]; subst res.
   - destruct (create_price_nonfinal _ _ _ _ _ _ _ _ Hc ltac:(discriminate)) as [Es Er]. subst s'.
     unfold mg_sm in *. apply (mg_inv_same p f b (mkState s m 0)); simpl; auto.
@@ -46,7 +46,7 @@ Proof.
       rewrite Hm'. split; [apply inc_keys_zset; exact Hinc|].
       rewrite Eb, Ee. exists 2. rewrite zget_zset_same. simpl. split; [reflexivity|].
       split; [right; reflexivity|]. split; [|intro; discriminate]. rewrite Hn2. lia.
-    + pose proof (other_feeder _ _ _ _ Hh Hf Nfid) as Htok.
+    + pose proof (other_feeder _ _ _ _ _ _ _ _ Hco Hf Nfid Hr Hst) as Htok.
       assert (Hsame : get_tp s' (f_token f) = get_tp s (f_token f)).
       { match type of Hs' with _ = s_prices (if ?c then ?a else ?g) => destruct c end; rewrite (Hgt _ Hs');
           [apply append_price_other | apply grow_round_other]; intro E; apply Htok; symmetry; exact E. }
@@ -67,21 +67,22 @@ Fixpoint had_final (p : params) (now : Z) (s : store) (m : mem) (l : list msg) :
       end
   end.
 
-Lemma run_msgs_keeps p f b now : mg_hyp p f -> forall l s m so m',
-  mg_sm p f b s m -> run_msgs p now s m l = (so, m') ->
+Lemma run_msgs_keeps p f H0 b now : mg_hyp p f -> forall l s m so m',
+  co_ok p f H0 b m -> mg_sm p f b s m -> run_msgs p now s m l = (so, m') ->
   match so with
   | Some s' => mg_sm p f b s' m'
   | None => had_final p now s m l = false -> m_rounds m' = m_rounds m
   end.
 Proof.
-  intro Hh. induction l as [|x r IH]; intros s m so m' Hinv H; simpl in H.
+  intro Hh. induction l as [|x r IH]; intros s m so m' Hco Hinv H; simpl in H.
   - inversion H; subst. exact Hinv.
   - simpl. destruct (create_price p now s m x) as [[s1 m1] res] eqn:Hc.
-    destruct (cp_keeps p f b now s m x s1 m1 res Hh Hinv Hc) as [K1 K2].
+    destruct (cp_keeps p f H0 b now s m x s1 m1 res Hh Hco Hinv Hc) as [K1 K2].
+    pose proof (co_ok_rounds_step p f H0 b _ _ (create_price_rounds_step _ _ _ _ _ _ _ _ Hc) Hco) as Hco1.
     destruct res.
-    + specialize (IH s1 m1 so m' (K1 (or_introl eq_refl)) H). destruct so; [exact IH|].
+    + specialize (IH s1 m1 so m' Hco1 (K1 (or_introl eq_refl)) H). destruct so; [exact IH|].
       intro Hf. rewrite (IH Hf). exact (proj2 (K2 ltac:(discriminate))).
-    + specialize (IH s1 m1 so m' (K1 (or_intror eq_refl)) H). destruct so; [exact IH|]. intro Hf. discriminate Hf.
+    + specialize (IH s1 m1 so m' Hco1 (K1 (or_intror eq_refl)) H). destruct so; [exact IH|]. intro Hf. discriminate Hf.
     + inversion H; subst. intros _. exact (proj2 (K2 ltac:(discriminate))).
     + inversion H; subst. intros _. exact (proj2 (K2 ltac:(discriminate))).
 Qed.
@@ -96,18 +97,23 @@ Definition clean_tx (p : params) (now : Z) (st : state) (t : tx) : Prop :=
                end
   end.
 
-Lemma clean_tx_keeps p f b now st t :
-  mg_hyp p f -> mg_inv p f b st -> clean_tx p now st t -> mg_inv p f b (fst (fst (deliver_tx p now st t))).
+Lemma clean_tx_keeps p f H0 b now st t :
+  mg_hyp p f -> mgx_inv p f H0 b st -> clean_tx p now st t -> mgx_inv p f H0 b (fst (fst (deliver_tx p now st t))).
 Proof.
-  intros Hh Hinv Hcl. unfold clean_tx in Hcl. unfold deliver_tx.
+  intros Hh [Hinv Hco] Hcl.
+  assert (Hco' : co_ok p f H0 b (st_mem (fst (fst (deliver_tx p now st t))))).
+  { destruct (deliver_tx p now st t) as [[st' a] ok] eqn:Hd. simpl.
+    exact (co_ok_rounds_step p f H0 b _ _ (deliver_tx_rounds_step _ _ _ _ _ _ _ Hd) Hco). }
+  split; [|exact Hco']. clear Hco'.
+  unfold clean_tx in Hcl. unfold deliver_tx.
   destruct (ante p (st_store st) t) as [s1|] eqn:Ha; [|exact Hinv].
   pose proof (ante_prices _ _ _ _ Ha) as Hp1.
   assert (Hinv1 : mg_sm p f b s1 (st_mem st)).
   { unfold mg_sm. apply (mg_inv_same p f b st); simpl; auto. }
-  pose proof (run_msgs_keeps p f b now Hh (t_msgs t) s1 (st_mem st)) as Hk.
+  pose proof (run_msgs_keeps p f H0 b now Hh (t_msgs t) s1 (st_mem st)) as Hk.
   destruct (run_msgs p now s1 (st_mem st) (t_msgs t)) as [[s2|] m2] eqn:Hr; simpl.
-  - exact (Hk _ _ Hinv1 eq_refl).
-  - pose proof (Hk _ _ Hinv1 eq_refl Hcl) as Hrounds.
+  - exact (Hk _ _ Hco Hinv1 eq_refl).
+  - pose proof (Hk _ _ Hco Hinv1 eq_refl Hcl) as Hrounds.
     apply (mg_inv_same p f b (mkState s1 (st_mem st) 0)); simpl; auto.
 Qed.
 
@@ -124,25 +130,48 @@ Fixpoint clean_blocks (p : params) (b : Z) (st : state) (bl : list blk) : Prop :
   | (txs, u) :: r => clean_txs p st txs /\ clean_blocks p (b + 1) (end_block p (b + 1) u (run_txs p st txs)) r
   end.
 
-Lemma clean_txs_inv p f b : mg_hyp p f -> forall txs st,
-  clean_txs p st txs -> mg_inv p f b st -> mg_inv p f b (run_txs p st txs).
+Lemma clean_txs_inv p f H0 b : mg_hyp p f -> forall txs st,
+  clean_txs p st txs -> mgx_inv p f H0 b st -> mgx_inv p f H0 b (run_txs p st txs).
 Proof.
   intro Hh. induction txs as [|[now t] r IH]; intros st Hcl Hinv; simpl; [exact Hinv|].
-  destruct Hcl as [H1 H2]. apply IH; [exact H2|]. exact (clean_tx_keeps p f b now st t Hh Hinv H1).
+  destruct Hcl as [H1 H2]. apply IH; [exact H2|]. exact (clean_tx_keeps p f H0 b now st t Hh Hinv H1).
 Qed.
 
-Lemma clean_blocks_inv p f : mg_hyp p f -> forall bl b st,
-  0 <= b -> b + Z.of_nat (List.length bl) < two64 -> clean_blocks p b st bl ->
-  mg_inv p f b st -> mg_inv p f (b + Z.of_nat (List.length bl)) (run_blocks p b st bl).
+Lemma clean_blocks_inv p f H0 : mg_hyp p f -> forall bl b st,
+  0 <= b -> b + Z.of_nat (List.length bl) < two64 -> b + Z.of_nat (List.length bl) <= H0 -> clean_blocks p b st bl ->
+  mgx_inv p f H0 b st -> mgx_inv p f H0 (b + Z.of_nat (List.length bl)) (run_blocks p b st bl).
 Proof.
-  intro Hh. induction bl as [|[txs u] r IH]; intros b st Hb0 Hb1 Hcl Hinv.
+  intro Hh. induction bl as [|[txs u] r IH]; intros b st Hb0 Hb1 HbH Hcl Hinv.
   - simpl. rewrite Z.add_0_r. exact Hinv.
   - destruct Hcl as [Hc1 Hc2].
     change (run_blocks p b st ((txs, u) :: r)) with (run_blocks p (b + 1) (end_block p (b + 1) u (run_txs p st txs)) r).
-    simpl List.length in Hb1. simpl List.length. rewrite Nat2Z.inj_succ in Hb1. rewrite Nat2Z.inj_succ.
+    simpl List.length in Hb1, HbH. simpl List.length. rewrite Nat2Z.inj_succ in Hb1, HbH. rewrite Nat2Z.inj_succ.
     replace (b + Z.succ (Z.of_nat (List.length r))) with (b + 1 + Z.of_nat (List.length r)) by lia.
-    apply IH; [lia | lia | exact Hc2|].
-    apply mg_end_keeps_inv; [exact Hh | exact Hb0 | lia|]. apply clean_txs_inv; assumption.
+    apply IH; [lia | lia | lia | exact Hc2|].
+    apply mg_end_keeps_inv; [exact Hh | exact Hb0 | lia | lia|]. apply clean_txs_inv; assumption.
+Qed.
+
+(* concatenated histories *)
+Lemma run_blocks_app p : forall bl1 bl2 b st,
+  run_blocks p b st (bl1 ++ bl2) = run_blocks p (b + Z.of_nat (List.length bl1)) (run_blocks p b st bl1) bl2.
+Proof.
+  induction bl1 as [|[txs u] r IH]; intros bl2 b st.
+  - simpl. rewrite Z.add_0_r. reflexivity.
+  - change (run_blocks p b st (((txs, u) :: r) ++ bl2)) with (run_blocks p (b + 1) (end_block p (b + 1) u (run_txs p st txs)) (r ++ bl2)).
+    rewrite IH. change (run_blocks p b st ((txs, u) :: r)) with (run_blocks p (b + 1) (end_block p (b + 1) u (run_txs p st txs)) r).
+    f_equal. simpl List.length. rewrite Nat2Z.inj_succ. lia.
+Qed.
+
+Lemma clean_blocks_app p : forall bl1 bl2 b st,
+  clean_blocks p b st (bl1 ++ bl2) ->
+  clean_blocks p b st bl1 /\ clean_blocks p (b + Z.of_nat (List.length bl1)) (run_blocks p b st bl1) bl2.
+Proof.
+  induction bl1 as [|[txs u] r IH]; intros bl2 b st H.
+  - simpl. rewrite Z.add_0_r. split; [exact I | exact H].
+  - simpl in H. destruct H as [H1 H2]. destruct (IH _ _ _ H2) as [I1 I2]. split; [split; assumption|].
+    change (run_blocks p b st ((txs, u) :: r)) with (run_blocks p (b + 1) (end_block p (b + 1) u (run_txs p st txs)) r).
+    match goal with |- clean_blocks _ ?x _ _ => assert (E : x = b + 1 + Z.of_nat (List.length r)) by (simpl List.length; rewrite Nat2Z.inj_succ; unfold blk in *; lia) end.
+    rewrite E. exact I2.
 Qed.
 
 (* single-message transactions are always clean *)
